@@ -73,6 +73,9 @@ type Options struct {
 	Partitions  int    // default 1
 	Dir         string // data root; "" = fresh temp dir removed by Close
 	KeepBackup  int
+	// Hosted lists the partition ids this server hosts (nil = all). A partition that is not
+	// hosted has no node here, as on a cluster where it lives on other machines.
+	Hosted []int
 }
 
 // Part is one partition: a real, never started KVNode behind a fake raft.
@@ -81,6 +84,7 @@ type Part struct {
 	KV   *node.KVNode
 	Raft *FakeRaft
 	prog node.VerifProgress
+	ID   int // partition id
 	// Poisoned is set when the apply path panicked: the store may hold locks for ever, so it
 	// is abandoned instead of closed.
 	Poisoned bool
@@ -270,6 +274,15 @@ func New(o Options) (*Sim, error) {
 	}
 	s.Srv = srv
 	for pid := 0; pid < o.Partitions; pid++ {
+		if o.Hosted != nil {
+			found := false
+			for _, h := range o.Hosted {
+				found = found || h == pid
+			}
+			if !found {
+				continue
+			}
+		}
 		nsConf := node.NewNSConfig()
 		nsConf.Name = common.GetNsDesp(o.Namespace, pid)
 		nsConf.BaseName = o.Namespace
@@ -285,7 +298,7 @@ func New(o Options) (*Sim, error) {
 			s.Close()
 			return nil, err
 		}
-		p := &Part{NN: nn, KV: nn.Node}
+		p := &Part{NN: nn, KV: nn.Node, ID: pid}
 		p.Raft = &FakeRaft{part: p, Term: 1, Immediate: true}
 		nn.Node.VerifSetRaft(p.Raft)
 		nn.VerifSetReady()
@@ -315,6 +328,16 @@ func (s *Sim) Close() {
 }
 
 func (s *Sim) Dir() string { return s.dir }
+
+// PartByID returns the hosted partition with that id, or nil.
+func (s *Sim) PartByID(pid int) *Part {
+	for _, p := range s.Parts {
+		if p.ID == pid {
+			return p
+		}
+	}
+	return nil
+}
 
 // PartDir is the data directory of one partition.
 func (s *Sim) PartDir(pid int) string {
